@@ -106,15 +106,17 @@ pub struct Sim {
     /// add-form read-modify-write instructions without LOCK executed in generated code while stepping
     pub unlocked_generated: [u32; MAXT],
     pub stepped: [u32; MAXT],
+    pub stepped_generated: [u32; MAXT],
 }
 
 // Address ranges that were made executable at run time (JIT and Cranelift code): recorded by the
 // interposed `mprotect` below, never removed.
-static EXEC_RANGES: [(std::sync::atomic::AtomicUsize, std::sync::atomic::AtomicUsize); 256] = {
+static EXEC_RANGES: [(std::sync::atomic::AtomicUsize, std::sync::atomic::AtomicUsize); NRANGES] = {
     #[allow(clippy::declare_interior_mutable_const)]
     const Z: (std::sync::atomic::AtomicUsize, std::sync::atomic::AtomicUsize) = (std::sync::atomic::AtomicUsize::new(0), std::sync::atomic::AtomicUsize::new(0));
-    [Z; 256]
+    [Z; NRANGES]
 };
+const NRANGES: usize = 8192;
 static EXEC_RANGES_N: std::sync::atomic::AtomicUsize = std::sync::atomic::AtomicUsize::new(0);
 
 /// The harness binary's own `mprotect` (an executable's symbols come first): passes everything on
@@ -124,8 +126,8 @@ pub unsafe extern "C" fn mprotect(addr: *mut libc::c_void, len: libc::size_t, pr
     if prot & libc::PROT_EXEC != 0 {
         let n = EXEC_RANGES_N.load(Ordering::Relaxed);
         let (a, b) = (addr as usize, addr as usize + len);
-        if !(0..n.min(256)).any(|i| EXEC_RANGES[i].0.load(Ordering::Relaxed) == a && EXEC_RANGES[i].1.load(Ordering::Relaxed) == b) {
-            let i = EXEC_RANGES_N.fetch_add(1, Ordering::Relaxed) % 256;
+        if !(0..n.min(NRANGES)).any(|i| EXEC_RANGES[i].0.load(Ordering::Relaxed) == a && EXEC_RANGES[i].1.load(Ordering::Relaxed) == b) {
+            let i = EXEC_RANGES_N.fetch_add(1, Ordering::Relaxed) % NRANGES;
             EXEC_RANGES[i].0.store(a, Ordering::Relaxed);
             EXEC_RANGES[i].1.store(b, Ordering::Relaxed);
         }
@@ -134,7 +136,7 @@ pub unsafe extern "C" fn mprotect(addr: *mut libc::c_void, len: libc::size_t, pr
 }
 
 fn in_generated_code(rip: usize) -> bool {
-    let n = EXEC_RANGES_N.load(Ordering::Relaxed).min(256);
+    let n = EXEC_RANGES_N.load(Ordering::Relaxed).min(NRANGES);
     (0..n).any(|i| rip >= EXEC_RANGES[i].0.load(Ordering::Relaxed) && rip < EXEC_RANGES[i].1.load(Ordering::Relaxed))
 }
 
@@ -275,6 +277,7 @@ impl Sim {
         self.step_mode = [false; MAXT];
         self.unlocked_generated = [0; MAXT];
         self.stepped = [0; MAXT];
+        self.stepped_generated = [0; MAXT];
         self.pending = [None; MAXT];
         self.crash_sig = [0; MAXT];
         match replay {
@@ -551,6 +554,25 @@ extern "C" fn on_segv(sig: libc::c_int, info: *mut libc::siginfo_t, ctx: *mut li
     }
 }
 
+/// Step mode: decode the instruction at the saved RIP if it lies in code generated at run time.
+unsafe fn look_at_next_instruction(s: &mut Sim, me: usize, uc: *mut libc::ucontext_t) {
+    s.stepped[me] += 1;
+    let rip = (*uc).uc_mcontext.gregs[libc::REG_RIP as usize] as usize;
+    if in_generated_code(rip) {
+        s.stepped_generated[me] += 1;
+        // (the JIT's pages are writable + executable without PROT_READ: the kernel refuses
+        // process_vm_readv there, the CPU does not; reading stays inside the executable range)
+        let mut code = [0u8; 15];
+        let room = if in_generated_code(rip + 14) { 15 } else { (PAGE - (rip & (PAGE - 1))).min(15) };
+        std::ptr::copy_nonoverlapping(rip as *const u8, code.as_mut_ptr(), room);
+        let regs = [0u64; 16];
+        let d = decode(&code[..room], &regs);
+        if d.class == Class::Rmw && d.add_form && !d.lock && !d.implicit_lock {
+            s.unlocked_generated[me] += 1;
+        }
+    }
+}
+
 extern "C" fn on_trap(sig: libc::c_int, _info: *mut libc::siginfo_t, ctx: *mut libc::c_void) {
     unsafe {
         let s = sim();
@@ -558,22 +580,7 @@ extern "C" fn on_trap(sig: libc::c_int, _info: *mut libc::siginfo_t, ctx: *mut l
         let me = s.baton.load(Ordering::Acquire);
         if s.active && me >= 0 && s.pending[me as usize].is_none() && s.step_mode[me as usize] {
             // free-running single-step mode: look at the instruction that is about to execute
-            let me = me as usize;
-            s.stepped[me] += 1;
-            let rip = (*uc).uc_mcontext.gregs[libc::REG_RIP as usize] as usize;
-            if in_generated_code(rip) {
-                // (the JIT's pages are writable + executable without PROT_READ: the kernel refuses
-                // process_vm_readv there, the CPU does not; a region made executable is whole pages,
-                // so reading up to the end of this page stays inside it)
-                let mut code = [0u8; 15];
-                let room = (PAGE - (rip & (PAGE - 1))).min(15);
-                std::ptr::copy_nonoverlapping(rip as *const u8, code.as_mut_ptr(), room);
-                let regs = [0u64; 16];
-                let d = decode(&code[..room], &regs);
-                if d.class == Class::Rmw && d.add_form && !d.lock && !d.implicit_lock {
-                    s.unlocked_generated[me] += 1;
-                }
-            }
+            look_at_next_instruction(s, me as usize, uc);
             return; // the trap flag stays set in the saved context
         }
         if !s.active || me < 0 || s.pending[me as usize].is_none() {
@@ -584,6 +591,9 @@ extern "C" fn on_trap(sig: libc::c_int, _info: *mut libc::siginfo_t, ctx: *mut l
         libc::mprotect(s.prog_view as *mut libc::c_void, PAGE, libc::PROT_NONE);
         if !s.step_mode[me] {
             (*uc).uc_mcontext.gregs[libc::REG_EFL as usize] &= !0x100;
+        } else {
+            // (the instruction after a monitored access must be looked at as well)
+            look_at_next_instruction(s, me, uc);
         }
         let p = s.pending[me].take().unwrap();
         let off = p.off as usize;
@@ -708,6 +718,7 @@ pub fn init() {
             step_mode: [false; MAXT],
             unlocked_generated: [0; MAXT],
             stepped: [0; MAXT],
+            stepped_generated: [0; MAXT],
         });
         SIM = Box::leak(s);
         for (sig, h) in [
